@@ -6,6 +6,7 @@
   arbitrary operand lists, hence for any nesting depth: the operand of an outer connective is
   the assertion list of the inner one, to which the same theorems apply.
 -/
+import PS.Proofs.StepInv
 import PS.Proofs.InitMem
 namespace PS
 
@@ -145,5 +146,16 @@ theorem C10_no_leak (cfg : Config) (st : State) (a : Fml) (h : a ∈ initFmls cf
 theorem C10_constraint_part (cfg : Config) (st : State) (ρ : Env) (hρ : Sat ρ (initFmls cfg st)) :
     ∀ c ∈ st.constrs, c.operand = false → Sat ρ c.asserts :=
   fun _ hc hop a ha => hρ a (mem_init_constr hc hop ha)
+
+/-- **C10 (no leak, part 2: over scripts).**  In every state a construction script can produce, a constraint
+    that a later connective (Not / Or / And / Xor / Implies / IfThenElse, at any nesting depth) or force-apply rule
+    refers to is marked as an operand (`C10_operands_marked`, by induction over the script), hence none of the
+    assertions `initialize` takes from the constraint registry comes from it (`C10_no_leak`): it only counts
+    through the combination. -/
+theorem C10_operand_not_enforced (st : State) (hr : Reachable st) (c d : Constr)
+    (hc : c ∈ st.constrs) (hd : d ∈ st.constrs) (href : d.id ∈ c.refs) (hlt : d.id < c.id) :
+    d ∉ st.constrs.filter (fun x => !x.operand) := by
+  have := (C10_operands_marked st hr).2 c hc d.id href d hd rfl hlt
+  simp [this]
 
 end PS
